@@ -10,6 +10,9 @@ use crate::server::request_hook::verif_kani::{any_b, any_ctx, marker, Ev, Log};
 use crate::verif_kani_support::run;
 
 #[kani::proof]
+#[kani::stub(tracing::__macro_support::__is_enabled, crate::verif_kani_support::tracing_never_enabled)]
+#[kani::stub(tracing::__macro_support::MacroCallsite::interest, crate::verif_kani_support::tracing_interest_never)]
+#[kani::stub(tracing::Event::dispatch, crate::verif_kani_support::tracing_no_dispatch)]
 #[kani::unwind(8)]
 fn k4_cons_first_then_rest_any_rest() {
     let log = Log::new();
@@ -65,6 +68,9 @@ impl<'a> BeforeRequestList<u32> for RL<'a> {
 /// `rest` whose own `then` appends at its end -- yields the order first, rest, next: `then`
 /// appends at the END of the chain, for every chain length.
 #[kani::proof]
+#[kani::stub(tracing::__macro_support::__is_enabled, crate::verif_kani_support::tracing_never_enabled)]
+#[kani::stub(tracing::__macro_support::MacroCallsite::interest, crate::verif_kani_support::tracing_interest_never)]
+#[kani::stub(tracing::Event::dispatch, crate::verif_kani_support::tracing_no_dispatch)]
 #[kani::unwind(8)]
 fn k4_cons_then_appends_at_end_any_rest() {
     let log = Log::new();
